@@ -219,13 +219,7 @@ func (d *dsys) Apply(i int) (sig, desc string) {
 		if m := d.compare(o, full); m != "" {
 			return "wasm-" + strings.Fields(m)[0], fmt.Sprintf("after %v: %s", o, m)
 		}
-		if m := pageCompare(d.sh.W, d.sh.H, func(x, y int) bool {
-			if x == 0 {
-				return false
-			}
-			_, pw := shadow.Shown(d.sh.At(x-1, y).R)
-			return pw == 2
-		}); m != "" {
+		if m := pageCompare(d.sh.W, d.sh.H, func(x, y int) bool { return false }); m != "" {
 			return "wasm-" + strings.Fields(m)[0], fmt.Sprintf("after %v: %s", o, m)
 		}
 		for k := range d.sh.Cells {
@@ -248,6 +242,12 @@ func (d *dsys) compare(o op, full bool) string {
 				// must not be painted in a Show in which neither it nor the wide rune changed
 				if !full && pc.stamp == pg.stamp && pc.drawn && !sc.ChangedSince && !d.sh.At(x-1, y).ChangedSince {
 					return fmt.Sprintf("overdraw: cell (%d,%d), covered by the wide rune to its left, was drawn although nothing changed since the previous Show", x, y)
+				}
+				// the covered column has no content of its own: whatever was there before the
+				// wide rune must be gone from the page (the grid holds one entry per column, so
+				// a stale character there is displayed behind the wide glyph)
+				if !d.stale && pc.drawn && pc.s != "" {
+					return fmt.Sprintf("covered: cell (%d,%d) is covered by the wide rune %q to its left, but the page still holds %q there", x, y, string(d.sh.At(x-1, y).R), pc.s)
 				}
 				continue
 			}
@@ -816,7 +816,7 @@ func fullQueue() {
 func main() {
 	w = hc.Start("C19")
 	w.R.Rule = "the package is compiled for GOOS=js GOARCH=wasm from the current tree (the check's build step; a compile error is reported with the compiler output); inside the wasm program under Node, with recording stand-ins for tcell.js: BFS (depth 4, thorough 5) over draw histories (wide-rune/combining/control alphabet 4x1, five-style alphabet 2x2 incl. basic, 256-palette and RGB colours, attributes, underline style/colour) comparing the page grid rebuilt from drawCell calls with the shadow model after every Show/Sync and requiring drawn cells to be changed cells; every name of WebKeyNames and six printable keys x 16 modifier combinations, modifier-only keys, both mouse callbacks x 4 button codes x 8 modifier sets x 8 enabled-flag sets, paste and focus callbacks enabled and disabled; all 340 orders of Suspend/Resume/SetSize/Fini up to length 4, each on a fresh screen, a call that returns with the screen lock held being detected by probing the lock (no wall clock); all sequences up to length 4 (5) over EnableMouse(all|buttons)/DisableMouse/EnablePaste/DisablePaste/EnableFocus/Suspend/Resume with key, click, motion, paste and focus callbacks probed after every step (a suspended screen must deliver nothing); with the page script running: after every Show/Sync of the draw histories the grid tcell.js has built (rows, columns, text, colours swapped under reverse, attribute and underline classes, underline colour, blink wrapper) equals what the draw calls since the last clear say, keys/paste (also characters outside the basic plane)/click/mousemove/focus/blur delivered as DOM events to its listeners become the right events, and all sequences up to length 4 of ShowCursor/HideCursor/SetSize/SetContent/Show throw nothing and leave the cursor class on exactly the requested on-screen cell. distinct_nontrivial = input cases + lifecycle sequences + draw states"
-	w.R.Assumptions = []string{"webfiles/tcell.js of the tree under test is executed under Node on a stand-in document object model (elements, classList, style, listeners; no layout engine, no CSS): recording functions sit in front of its drawCell/show/... and pass every call on; if the script cannot be read the recorders alone are the page (noted in the evidence)", "default/reset colours and a wide rune in the last column are not fixed by the statement for this backend and are not compared", "Ctrl-letter mapping follows the backend's documented special case (Ctrl alone + letter => KeyCtrlX)"}
+	w.R.Assumptions = []string{"webfiles/tcell.js of the tree under test is executed under Node on a stand-in document object model (elements, classList, style, listeners; no layout engine, no CSS): recording functions sit in front of its drawCell/show/... and pass every call on; if the script cannot be read the recorders alone are the page (noted in the evidence)", "default/reset colours and a wide rune in the last column are not fixed by the statement for this backend and are not compared; the column a wide rune covers must hold no text of its own", "Ctrl-letter mapping follows the backend's documented special case (Ctrl alone + letter => KeyCtrlX)"}
 	install()
 	if ok, why := loadPage(); ok {
 		realPage = true
